@@ -22,6 +22,8 @@ import (
 // implementation: it is the canonical source text below — that is the specification the codecs are held to.
 
 var longStr = "a string long enough to be de-duplicated"
+var str19, str20, str21 = "exactly 19 bytes ..", "exactly twenty bytes", "exactly 21 bytes ...."
+var uni20 = "éééééééééé"
 var longUni = "ééééééééééé" // 11 characters, 22 bytes: the threshold counts bytes
 
 // strings that collide with what the serializer itself emits, plus ordinary ones
@@ -64,6 +66,52 @@ var tdefSrc = []string{
 	`Object[{name => 'Verif::Fresh5', attributes => {'h' => {'type' => Hash[String, Integer], 'value' => {'x' => 1}}}, equality_include_type => false}]`,
 }
 
+// alias definitions no loader knows (the harness's notation, builder.typeOf): they travel as Pcore::TypeAlias instances
+var aliasSrc = []string{
+	"alias Verif::FreshA = Array[Integer]",
+	"alias Verif::FreshB = Hash[String, Verif::Pair]", // the aliased type has no type string: attribute by attribute
+	"alias Verif::FreshC = Variant[String, Verif::Ints]",
+	"alias Verif::FreshD = " + tdefSrc[0], // an alias of a definition no loader knows either
+}
+
+// instances of the definitions of tdefSrc: the serializer finds no loader that knows the type of the instance and sends
+// the definition in place of the type name (pcoreTypeToData); attrs = attribute names in the order of the type, with a
+// maker of a value of the attribute's type (nil: any value)
+type freshSpec struct {
+	src   string
+	names []string
+	mk    []func(g *vgen, depth int) *node
+	must  int // the first `must` attributes are required
+}
+
+func mkInt(g *vgen, depth int) *node { return &node{kind: "i", i: genInts[g.r.Intn(len(genInts))]} }
+func mkStr(g *vgen, depth int) *node { return g.str() }
+func mkAny(g *vgen, depth int) *node { return g.value(depth-1, false) }
+func mkInts(g *vgen, depth int) *node {
+	n := &node{kind: "a", id: g.id()}
+	for i, m := 0, g.r.Intn(3); i < m; i++ {
+		n.kids = append(n.kids, mkInt(g, depth))
+	}
+	return g.keep(n)
+}
+func mkStrIntHash(g *vgen, depth int) *node {
+	n := &node{kind: "h", id: g.id()}
+	for i, m := 0, g.r.Intn(3); i < m; i++ {
+		n.kids = append(n.kids, &node{kind: "s", s: []string{"x", "y", longStr}[i]}, mkInt(g, depth))
+	}
+	return g.keep(n)
+}
+
+func freshSpecs() []freshSpec {
+	return []freshSpec{
+		{tdefSrc[0], []string{"z"}, []func(*vgen, int) *node{mkInt}, 1},
+		{tdefSrc[1], []string{"z"}, []func(*vgen, int) *node{mkInt}, 1},
+		{tdefSrc[2], []string{"a", "b", "c"}, []func(*vgen, int) *node{mkAny, mkAny, mkStr}, 2},
+		{tdefSrc[3], []string{"a", "b"}, []func(*vgen, int) *node{mkInts, mkStr}, 0},
+		{tdefSrc[5], []string{"h"}, []func(*vgen, int) *node{mkStrIntHash}, 0},
+	}
+}
+
 // further sources for the stand-alone codec check
 var codecExtra = [][2]string{
 	{"rx", `a/b`}, {"rx", `\\/`}, {"rx", "(?i)x"}, {"rx", "é+"}, {"rx", "a\nb"}, {"rx", "^$"}, {"rx", `[/]`}, {"rx", `'"`},
@@ -77,6 +125,23 @@ var codecExtra = [][2]string{
 	{"ty", "Hash[String, Array[Variant[Integer, Undef]], 1, 5]"}, {"ty", "Optional['x']"}, {"ty", "Integer[default, 5]"}, {"ty", "Collection[1, 2]"},
 	{"ty", "Array[String, 0, 0]"}, {"ty", "Regexp[/x/]"}, {"ty", "URI[{'scheme' => 'http'}]"}, {"ty", "Binary"}, {"ty", "Boolean[true]"}, {"ty", "Default"},
 	{"ty", "Runtime['go', 'x']"}, {"ty", "TypeReference['A::B']"}, {"ty", "Like[String]"}, {"ty", "Init[Integer]"}, {"ty", "Undef"},
+	// the types of the leaf kinds themselves: default, and with every form of parameter list they print
+	{"ty", "SemVer"}, {"ty", "SemVerRange"}, {"ty", "Regexp"}, {"ty", "Timespan"}, {"ty", "Timestamp"}, {"ty", "Sensitive"}, {"ty", "URI"},
+	{"ty", "Timespan['0-00:00:01.0']"}, {"ty", "Timespan[default, '0-00:01:30.0']"}, {"ty", "Timespan['-0-00:00:01.5', '0-00:00:00.000000001']"},
+	{"ty", "Timestamp['2020-01-01T00:00:00.000000000 UTC']"},
+	{"ty", "Timestamp['2020-01-01T00:00:00.000000000 UTC', '2021-01-01T00:00:00.500000000 UTC']"},
+	{"ty", "SemVer['>=1.0.0 <2.0.0 || >=3.0.0']"}, {"ty", "SemVer['>=1.0.0 <2.0.0', '>=3.0.0']"}, {"ty", "SemVer['1.x']"},
+	{"ty", `Regexp[/a\/b/]`}, {"ty", "Regexp[/é+/]"}, {"ty", `Pattern[/a/, /b\/c/]`}, {"ty", "Sensitive[Binary]"}, {"ty", "Type[Regexp[/x/]]"},
+	{"ty", "Array[Timespan['0-00:00:01.0', '0-00:00:02.0'], 1, 2]"}, {"ty", "Hash[SemVer['>=1.0.0'], URI]"},
+	{"ty", "URI['http://example.com/a']"}, {"ty", "URI[{'scheme' => 'http', 'host' => 'example.com', 'path' => '/a'}]"},
+	{"ty", "Variant[Regexp[/x/], Timestamp, SemVerRange]"}, {"ty", "Struct[{'r' => Regexp[/x/], Optional['t'] => Timespan}]"},
+	{"ty", "Optional[Sensitive[String]]"}, {"ty", "Float[default, 2.50000]"}, {"ty", "Float[1e+21]"}, {"ty", "Integer[5]"},
+	{"ty", "Integer[-9223372036854775808, -1]"}, {"ty", "Boolean[false]"}, {"ty", "Enum['a', 'b', true]"},
+	{"ty", "Callable[0, 0]"}, {"ty", "Callable[[0, 0], Float]"}, {"ty", "Callable[[String, 1, default], Callable[String]]"},
+	{"ty", "Iterator[Integer]"}, {"ty", "Tuple[String, 0, 0]"}, {"ty", "Tuple"}, {"ty", "Struct"}, {"ty", "Object"}, {"ty", "Type"},
+	{"ty", "Type[Type[Type]]"}, {"ty", "Runtime"}, {"ty", "Runtime['go']"}, {"ty", "Array[0, 0]"}, {"ty", "Hash[0, 0]"}, {"ty", "NotUndef['x']"},
+	{"ty", "NotUndef"}, {"ty", "Optional"}, {"ty", "Iterable"}, {"ty", "Init[String, 'x']"}, {"ty", "Init"}, {"ty", "Scalar"}, {"ty", "ScalarData"},
+	{"ty", "Numeric"}, {"ty", "Collection"},
 }
 
 type vgen struct {
@@ -116,6 +181,9 @@ func (g *vgen) leaf() *node {
 
 func (g *vgen) tdef() *node {
 	src := tdefSrc[g.r.Intn(len(tdefSrc))]
+	if g.r.Intn(4) == 0 {
+		src = aliasSrc[g.r.Intn(len(aliasSrc))]
+	}
 	// one definition per text in a value: a second one is the SAME type object once more (two separately parsed
 	// definitions of one name are two objects whose init hashes hold separate but equal types — identities the
 	// term syntax, which interns types by text, cannot tell apart)
@@ -133,7 +201,7 @@ func (g *vgen) bin() *node {
 
 // holds a Sensitive (never equal to itself) or an object: not used as a hash key
 func unkeyed(n *node) bool {
-	if n.kind == "sn" || n.kind == "o" || n.kind == "tdef" {
+	if n.kind == "sn" || n.kind == "o" || n.kind == "tdef" || n.kind == "rt" {
 		return true
 	}
 	for _, k := range n.kids {
@@ -168,6 +236,10 @@ func (g *vgen) value(depth int, key bool) *node {
 			return g.leaf()
 		case 1:
 			return g.bin()
+		case 2:
+			if !key && g.r.Intn(4) == 0 {
+				return g.rt()
+			}
 		}
 		return g.scalar()
 	}
@@ -204,7 +276,48 @@ func (g *vgen) value(depth int, key bool) *node {
 	}
 }
 
+func (g *vgen) rt() *node {
+	return g.keep(&node{kind: "rt", id: g.id(), s: []string{"", "ab", longStr, "__ptype"}[g.r.Intn(4)]})
+}
+
+// an instance of a definition no loader knows (an attribute that has its default is left out of the init hash, so it is
+// not given: the op syntax lists the entries of the init hash)
+func (g *vgen) freshObject(depth int) *node {
+	specs := freshSpecs()
+	sp := specs[g.r.Intn(len(specs))]
+	n := &node{kind: "o", id: g.id(), s: sp.src}
+	for i, name := range sp.names {
+		if i >= sp.must && g.r.Intn(2) == 0 {
+			continue
+		}
+		v := sp.mk[i](g, depth)
+		if i >= sp.must && isDefaultOf(sp.src, name, v) {
+			continue
+		}
+		n.names, n.kids = append(n.names, name), append(n.kids, v)
+	}
+	return g.keep(n)
+}
+
+// the defaults written in tdefSrc
+func isDefaultOf(src, name string, v *node) bool {
+	switch {
+	case src == tdefSrc[2] && name == "c":
+		return v.kind == "s" && v.s == "x"
+	case src == tdefSrc[3] && name == "a":
+		return v.kind == "a" && len(v.kids) == 2 && v.kids[0].i == 1 && v.kids[1].i == 2
+	case src == tdefSrc[3] && name == "b":
+		return v.kind == "u"
+	case src == tdefSrc[5] && name == "h":
+		return v.kind == "h" && len(v.kids) == 2 && v.kids[0].s == "x" && v.kids[1].i == 1
+	}
+	return false
+}
+
 func (g *vgen) object(depth int) *node {
+	if g.r.Intn(5) == 0 {
+		return g.freshObject(depth)
+	}
 	n := &node{kind: "o", id: g.id()}
 	switch g.r.Intn(4) {
 	case 0:
@@ -272,7 +385,7 @@ func hardKey(n *node, seen map[*node]bool) bool {
 
 // implOnly: the value holds something the model does not cover
 func implOnly(n *node) bool {
-	if (n.kind == "tdef" && n.init == nil) || (n.kind == "l" && n.lk == "tx") {
+	if (n.kind == "tdef" && n.init == nil) || (n.kind == "l" && n.lk == "tx") || n.kind == "rt" || freshObj(n) {
 		return true
 	}
 	for _, k := range n.kids {
@@ -310,8 +423,8 @@ func (n *node) write(sb *strings.Builder, seen map[*node]bool) {
 	seen[n] = true
 	id := strconv.FormatInt(n.id, 10)
 	switch n.kind {
-	case "x":
-		sb.WriteString("(x " + id + " " + hx(n.s) + ")")
+	case "x", "rt":
+		sb.WriteString("(" + n.kind + " " + id + " " + hx(n.s) + ")")
 	case "l":
 		sb.WriteString("(l " + id + " " + n.lk + " " + hx(n.s) + " " + hx(n.disp) + ")")
 	case "tdef":
@@ -405,7 +518,12 @@ func emitMatrix(g *core.G, c px.Context, root *node) { emitMatrix2(g, c, root, f
 func emitMatrix2(g *core.G, c px.Context, root *node, random bool) {
 	val, ok := finish(c, root)
 	if !ok {
-		panic("generator produced a value pcore cannot build: " + fmt.Sprint(root.kind))
+		// every value of the generator's catalogue is a value pcore can build on the unchanged tree: when it cannot, that is
+		// reported as a failure of the property's precondition on a concrete value (not as broken machinery)
+		var sb strings.Builder
+		root.write(&sb, map[*node]bool{})
+		g.Emit("@unbuildable " + h(sb.String()))
+		return
 	}
 	hard := hardKey(root, map[*node]bool{})
 	only := implOnly(root) || (random && userPtype(root))
@@ -479,12 +597,40 @@ func fixedValues() []string {
 		"(a 1 " + s("Verif::Pair") + " (o 2 " + h("Verif::Pair") + " x (x61 (i 1)) (x62 " + L + ")) (= 2) (o 3 " + h("Verif::Box") + " x (x76 (= 2))) " + L + ")",
 		"(o 1 " + h("Verif::Pair") + " x (x61 (sn 2 (x 3 x010203))) (x62 (h 4 ((i 1) (= 2)) ((= 3) (df)))))",
 		"(h 1 (" + s("k") + " (o 2 " + h("Verif::Box") + " x (x76 (a 3 (o 4 " + h("Verif::Unit") + " x) (= 4))))))",
+		// strings at the de-duplication thresholds of the matrix (0, 1, 20 bytes) and one byte to either side, each twice;
+		// as hash keys and values too (the threshold counts bytes: 10 two-byte characters are 20 bytes)
+		"(a 1 " + s("") + " " + s("") + " " + s("a") + " " + s("a") + " " + s("ab") + " " + s("ab") + ")",
+		"(a 1 " + s(str19) + " " + s(str19) + " " + s(str20) + " " + s(str20) + " " + s(str21) + " " + s(str21) + " " + s(uni20) + " " + s(uni20) + ")",
+		"(h 1 (" + s(str20) + " " + s(str20) + ") (" + s(str19) + " " + s(str19) + ") (" + s("k") + " (h 2 (" + s(str20) + " " + s(str19) + "))))",
+		"(h 1 ((i 1) " + s(str20) + ") (" + s(str20) + " " + s(uni20) + ") (" + s(uni20) + " (sn 2 " + s(str20) + ")))",
 		// named types the loader knows, shared, next to the bare name
 		"(a 1 (l 2 td " + h("Verif::Pair") + " x) (= 2) " + s("Verif::Pair") + " (l 3 td " + h("Verif::Ints") + " x) " + s("Type") + " (l 4 ty " + h("String") + " x))",
 	}
 	for _, t := range tdefSrc {
 		out = append(out, "(tdefx 1 "+h(t)+" x)", "(a 1 (tdefx 2 "+h(t)+" x) (= 2) "+s("Pcore::ObjectType")+" "+s("attributes")+")")
 	}
+	// instances of definitions no loader knows (the definition travels in place of the type name), alone, twice, next to
+	// the definition itself (before and after), inside a Sensitive / a hash / an instance of a known type
+	F, AN, F2, F3 := h(tdefSrc[0]), h(tdefSrc[1]), h(tdefSrc[2]), h(tdefSrc[3])
+	out = append(out,
+		"(o 1 "+F+" x (x7a (i 3)))", "(o 1 "+AN+" x (x7a (i 3)))", "(o 1 "+F3+" x)", "(o 1 "+F3+" x (x62 "+L+"))",
+		"(o 1 "+F2+" x (x61 (i 1)) (x62 "+L+"))", "(o 1 "+F2+" x (x61 (i 1)) (x62 "+L+") (x63 "+s("y")+"))",
+		"(a 1 (o 2 "+F+" x (x7a (i 3))) (o 3 "+F+" x (x7a (i 4))) (= 2) (tdefx 4 "+F+" x) "+s("Verif::Fresh")+")",
+		"(a 1 (tdefx 2 "+F+" x) (o 3 "+F+" x (x7a (i 3))) (= 3) (= 2))",
+		"(a 1 (o 2 "+AN+" x (x7a (i 3))) (o 3 "+AN+" x (x7a (i 3))) (tdefx 4 "+AN+" x) (= 2))",
+		"(h 1 ("+s("k")+" (sn 2 (o 3 "+F+" x (x7a (i 3))))) ("+s("Verif::Fresh")+" (= 3)))",
+		"(o 1 "+h("Verif::Box")+" x (x76 (o 2 "+F2+" x (x61 (o 3 "+F+" x (x7a (i 3)))) (x62 (= 3)))))",
+		"(a 1 (o 2 "+F2+" x (x61 (i 1)) (x62 (i 2))) (o 3 "+h("Verif::Pair")+" x (x61 (i 1)) (x62 (i 2))) (l 4 td "+h("Verif::Pair")+" x))",
+		// RuntimeValues: emitted as the text of the wrapped Go value; the same one twice, two that print alike, next to the text
+		"(rt 1 x6162)", "(a 1 (rt 2 "+h(longStr)+") (= 2) (rt 3 "+h(longStr)+") "+s("&{"+longStr+"}")+")",
+		"(h 1 ((rt 2 x6162) (= 2)) ("+s("k")+" (sn 3 (= 2))))", "(o 1 "+h("Verif::Box")+" x (x76 (rt 2 x)))",
+	)
+	for _, t := range aliasSrc {
+		out = append(out, "(tdefx 1 "+h(t)+" x)", "(a 1 (tdefx 2 "+h(t)+" x) (= 2) "+s(strings.Fields(t)[1])+" (l 3 ty "+h("Array[Integer]")+" x))")
+	}
+	// an alias of a definition next to the definition and an instance of it
+	out = append(out, "(a 1 (tdefx 2 "+h(aliasSrc[3])+" x) (tdefx 3 "+F+" x) (o 4 "+F+" x (x7a (i 3))))",
+		"(a 1 (o 4 "+F+" x (x7a (i 3))) (tdefx 2 "+h(aliasSrc[3])+" x) (= 2))")
 	i := 0
 	for _, k := range leafKinds {
 		for _, src := range leafSrc[k] {
